@@ -745,7 +745,7 @@ fn c14_construction() -> crate::report::EnumOutcome {
 
 pub fn c14(rep: &mut Report, tier: &str, seed: u64) {
     use crate::e5::FaultModel;
-    if REPLAY.get().is_none() {
+    if REPLAY.get().is_none() || crate::report::REPLAY_CASE.get().is_some() {
         rep.enumerations.push(c14_construction());
     }
     let quick = tier == "quick";
